@@ -53,10 +53,68 @@ def module_function_names(filekey):
     return {n.name for n in tree.body if isinstance(n, ast.FunctionDef)}
 
 
+class Modules(object):
+    """name resolution across the files of the package: functions, classes, `from .x import ...`"""
+
+    def __init__(self):
+        self.info = {}
+
+    def get(self, filekey):
+        if filekey in self.info:
+            return self.info[filekey]
+        src, tree = parse_file(filekey)
+        funcs, classes, imports = {}, {}, {}
+        pkg = os.path.dirname(filekey)
+        for n in tree.body:
+            if isinstance(n, ast.FunctionDef):
+                funcs[n.name] = n
+            elif isinstance(n, ast.ClassDef):
+                classes[n.name] = n
+            elif isinstance(n, ast.ImportFrom) and n.level == 1 and n.module:
+                target = os.path.join(pkg, n.module + '.py')
+                for a in n.names:
+                    imports[a.asname or a.name] = (target, a.name)
+        self.info[filekey] = {'funcs': funcs, 'classes': classes, 'imports': imports}
+        return self.info[filekey]
+
+    def resolve(self, filekey, name, depth=0):
+        """-> ('func'|'class', defining filekey, node) or None"""
+        if depth > 5:
+            return None
+        try:
+            inf = self.get(filekey)
+        except (OSError, SyntaxError):
+            return None
+        if name in inf['funcs']:
+            return ('func', filekey, inf['funcs'][name])
+        if name in inf['classes']:
+            return ('class', filekey, inf['classes'][name])
+        if name in inf['imports']:
+            f2, n2 = inf['imports'][name]
+            return self.resolve(f2, n2, depth + 1)
+        return None
+
+    def mro(self, filekey, cname):
+        """linearised single-inheritance chain [(filekey, ClassDef), ...]"""
+        out = []
+        cur = self.resolve(filekey, cname)
+        while cur is not None and cur[0] == 'class':
+            out.append((cur[1], cur[2]))
+            bases = [b.id for b in cur[2].bases if isinstance(b, ast.Name)]
+            if not bases or bases[0] == 'object':
+                break
+            cur = self.resolve(cur[1], bases[0])
+        return out
+
+
+MODULES = Modules()
+
+
 def gen_function_vcs(lib, key):
     """key = 'pyclifford/utils.py::acq'.  returns (vcs, info)"""
     c = lib.contracts[key]
     filekey, qual = key.split('::')
+    qual = qual.split('#')[0]      # 'Class.method#variant': several contracts for one method (dispatch cases)
     fdef, seg = find_function(filekey, qual)
     info = {'key': key, 'file': filekey, 'function': qual}
     if fdef is None:
@@ -69,7 +127,8 @@ def gen_function_vcs(lib, key):
     if c.trusted or c.bounded_only:
         info['status'] = 'trusted' if c.trusted else 'bounded_only'
         return [], info
-    fv = executor.FuncVerifier(lib, filekey, fdef, c, module_function_names(filekey))
+    fv = executor.FuncVerifier(lib, filekey, fdef, c, module_function_names(filekey), modules=MODULES,
+                               class_name=qual.split('.')[0] if '.' in qual else None)
     try:
         vcs = fv.run()
         info['status'] = 'ok'
